@@ -103,6 +103,18 @@ class C19(Prop):
                 ds = [d1, d2] + [self.gen_domain(rng, "uniform") for _ in range(nd - 2)]
             else:
                 ds = [self.gen_domain(rng, rng.choice(["uniform", "nonuniform", "nonuniform", "unsorted"])) for _ in range(nd)]
+            intdom = False
+            if scen == "mixed" and rng.random() < 0.3:
+                # integer-valued domains handed over as integer arrays (wavelengths in nm are usually ints)
+                intdom = True
+                ds = []
+                for _ in range(nd):
+                    k = rng.randint(2, 9)
+                    if rng.random() < 0.5:
+                        x0 = rng.randint(300, 320); st = rng.choice([1, 2, 3, 5, 7])
+                        ds.append([float(x0 + st * j) for j in range(k)])
+                    else:
+                        ds.append([float(v) for v in sorted(rng.sample(range(300, 340), k))])
             arrs, axes = [], []
             rank = rng.choice([1, 2, 2, 3])
             stack = rng.choice([None, None, "stack", "concat"])
@@ -124,8 +136,8 @@ class C19(Prop):
                 if stack == "concat" and sa == same_axis % rank:
                     pass  # concatenating along the domain axis is legal after equalisation
             cases.append({"entry": "equalize_domains", "ds": ds, "arrs": arrs, "axes": axes, "use_axes": use_axes,
-                          "stack": stack, "stack_axis": sa, "scen": scen, "rank": rank,
-                          "kind": "%s/n%d/rank%d/%s" % (scen, nd, rank, stack)})
+                          "stack": stack, "stack_axis": sa, "scen": scen, "rank": rank, "intdom": intdom,
+                          "kind": "%s%s/n%d/rank%d/%s" % (scen, "-int" if intdom else "", nd, rank, stack)})
         return cases
 
     def gen_est(self, rng):
@@ -141,7 +153,7 @@ class C19(Prop):
         if case["entry"] == "estimator.capture":
             est = dreye.ReceptorEstimator(np.array(case["F"]), domain=np.array(case["df"]))
             return {"cap": np.asarray(est.capture(np.array(case["S"]), domain=np.array(case["dsig"]))).tolist()}
-        ds = [np.array(d, dtype=float) for d in case["ds"]]
+        ds = [np.array(d, dtype=(int if case.get("intdom") else float)) for d in case["ds"]]
         arrs = [np.array(a, dtype=float) for a in case["arrs"]]
         kw = {}
         if case["use_axes"] is not None:
